@@ -21,7 +21,6 @@ import RotoV.Lemmas.Tarjan
 import RotoV.Lemmas.TarjanCtx
 import RotoV.Lemmas.TarjanNoPanic
 import RotoV.Lemmas.TarjanLir
-import RotoV.Generated.C14Emit
 
 namespace RotoV.C14
 open RotoV.Tarjan
@@ -469,12 +468,18 @@ real compilation (hook `take_lir`): it must succeed, and its run order must be
 the observed initialiser log. -/
 
 /-- If the loop completes, then every constant's initialiser ran exactly once,
-in list order, and at the moment it ran the constant itself and every function
-it can reach through calls / function addresses (script functions and generated
-clone / drop / eq functions alike) had a finalized body. -/
+in list order, and at the moment constant `c`'s initialiser ran (`D` = bodies
+defined and finalized, `S` = constants already evaluated): the constant itself
+and every function it can reach through calls / function addresses — script
+functions and generated clone / drop / eq functions alike — had a finalized
+body; every script constant read by it or by anything it can reach had already
+been evaluated, earlier in the run order; and in the end every defined body only
+refers to defined bodies. -/
 theorem init_runs_closed (items : List LItem) (st : LState) (h : cgLir items = .ok st) :
     st.runs.map Prod.fst = constPositions 0 items ∧
-    (∀ c D, (c, D) ∈ st.runs → c ∈ D ∧ ∀ x, LReach items c x → x ∈ D) ∧
+    (∀ c D S, (c, D, S) ∈ st.runs →
+      c ∈ D ∧ ∀ x, LReach items c x →
+        x ∈ D ∧ ∀ k, LReads items x k → k ∈ S ∧ Before k c (st.runs.map Prod.fst)) ∧
     (∀ p, p ∈ st.defined → ∀ q, LEdge items p q → q ∈ st.defined) := by
   unfold cgLir at h
   simp only [bind, Except.bind] at h
@@ -482,18 +487,20 @@ theorem init_runs_closed (items : List LItem) (st : LState) (h : cgLir items = .
   | error e => rw [hl] at h; cases h
   | ok st1 =>
     rw [hl] at h
-    obtain ⟨inv1, hr1⟩ := lLoop_inv items 0 LState.new st1 (LInv.new items) hl
+    obtain ⟨inv1, hr1⟩ := lLoop_inv items 0 LState.new st1 (by simp) (LInv.new items) hl
     obtain ⟨inv2, _, hp2, _, hr2⟩ := lFinalize_inv inv1 h
     refine ⟨by rw [hr2, hr1]; simp [LState.new], ?_, ?_⟩
-    · intro c D hm
-      obtain ⟨hc, hD⟩ := inv2.runs c D hm
-      exact ⟨hc, fun x r => r.closed hD hc⟩
+    · intro c D S hm
+      obtain ⟨hc, hD, hS, hB⟩ := inv2.runs c D S hm
+      refine ⟨hc, fun x r => ?_⟩
+      have hx : x ∈ D := r.closed hD hc
+      exact ⟨hx, fun k hk => ⟨hS x hx k hk, hB k (hS x hx k hk)⟩⟩
     · intro p hp q e
       exact inv2.closed p hp (by rw [hp2]; simp) q e
 
 /-- helpers first: `[clone, drop, K, f]` where `K`'s initialiser calls `clone` -/
 example : (cgLir [⟨false, none, [], []⟩, ⟨false, none, [], []⟩, ⟨true, some 1, [some 0], []⟩,
-    ⟨false, none, [some 0], [some 2]⟩]).map (·.runs) = .ok [(2, [2, 1, 0])] := by decide
+    ⟨false, none, [some 0], [some 2]⟩]).map (·.runs) = .ok [(2, [2, 1, 0], [])] := by decide
 /-- the clone function after the script items: `[drop, K, f, clone]` — the loop
 stops at `K` ("can't resolve symbol") -/
 example : cgLir [⟨false, none, [], []⟩, ⟨true, some 0, [some 3], []⟩, ⟨false, none, [some 3], [some 1]⟩,
@@ -505,29 +512,5 @@ example : cgLir [⟨false, none, [], []⟩, ⟨false, none, [some 3], []⟩, ⟨
 example : cgLir [⟨true, some 1, [], []⟩, ⟨false, none, [], []⟩] = .error .panic := by decide
 /-- without a constant in between, order does not matter (one finalize at the end) -/
 example : (cgLir [⟨false, none, [some 1], []⟩, ⟨false, none, [], []⟩]).map (·.runs) = .ok [] := by decide
-
-/-! ## T7 — the source facts the item loop rests on (regenerated from `src/lir/lower.rs` and `src/codegen/mod.rs` on every run) -/
-
-/-- `Lowerer::program` emits every group of generated functions (clone, drop,
-eq) exactly once and before the script's own items — the first of which may be
-a constant whose initialiser needs any of them. -/
-theorem helpers_emitted_first : helpersFirst RotoV.Gen.C14Emit.programOrder = true := by decide
-
-/-- `codegen` declares every item before it defines the first one, its define
-loop does for a constant / a function exactly what `lStep` models, in that
-order (define; finalize; fetch the finalized drop function and initialiser;
-run; store), and it ends with a `finalize_definitions`. -/
-theorem codegen_loop_shape :
-    RotoV.Gen.C14Emit.declareAllFirst = true ∧
-    RotoV.Gen.C14Emit.constantArm = modelConstantArm ∧
-    RotoV.Gen.C14Emit.functionArm = modelFunctionArm ∧
-    RotoV.Gen.C14Emit.finalizeAtEnd = true := by decide
-
-/-- the checker is not trivially true: clone functions after the items, a group
-missing, a group twice -/
-example : helpersFirst [.drops, .eqs, .items, .clones] = false := by decide
-example : helpersFirst [.clones, .eqs, .items] = false := by decide
-example : helpersFirst [.clones, .drops, .eqs, .items, .drops] = false := by decide
-example : helpersFirst [.drops, .clones, .eqs, .items] = true := by decide
 
 end RotoV.C14
